@@ -231,10 +231,16 @@ def hexN (len : Nat) (t : Bytes) : Option Bytes :=
   | some b => if b.length = len then some b else none
   | none => none
 
+/-- `drbg.SeedFromHex`: at least `SeedLength` bytes, truncated to `SeedLength` -/
+def hexSeed (t : Bytes) : Option Bytes :=
+  match Hex.decode t with
+  | some b => if Consts.Drbg.seedLength ≤ b.length then some (b.take Consts.Drbg.seedLength) else none
+  | none => none
+
 /-- the validation in `serverStateFromJSONServerState` -/
 def identOfJS (js : JS) : Option Ident :=
   match hexN Consts.Ntor.nodeIDLength js.nodeID, hexN Consts.Ntor.privateKeyLength js.priv,
-        hexN Consts.Drbg.seedLength js.seed with
+        hexSeed js.seed with
   | some id, some pk, some sd =>
     if (Consts.Obfs4.iatNone : Int) ≤ js.iat ∧ js.iat ≤ (Consts.Obfs4.iatParanoid : Int)
     then some ⟨id, pk, sd, js.iat.toNat⟩ else none
